@@ -145,7 +145,11 @@ def run(ctx):
         ctx.violation("reader-idle-cycle", sp_file_line(rf.term(cyc[0]).get("sp")), "Command::read_from can loop without consuming input")
     # `None` from the reader ends read_from (EOF is not retried)
     ctx.finish_rule()
-    ctx.note("end of input -> quit -> detach is C09.R5; the panic obligations of the stepping arms are C16.R4 (panic engine)")
+    ctx.note("end of input -> quit -> detach is C09.R5")
+
+    from ..panics import run_ledger
+    run_ledger(ctx, "C16.R4", "closed panic ledger of the run loop, the pausing code and the command arms", [rl.name, pz.name], floor=20,
+               only=lambda s: (s.fn.name.startswith("lace::debugger::") and "::command::" not in s.fn.name) or s.fn.name == rl.name)
 
 
 def _path(fn, src, dst, avoid, blocked_edge):
